@@ -285,6 +285,15 @@ func workerMain(o *opts) {
 		defer interp.SP.Close()
 	}
 	known := loadKnown(o.knownFile, o.propID)
+	if os.Getenv("GOSYM_QPROF") != "" {
+		interp.QProf = map[string]int{}
+		defer func() {
+			interp.QProf["TOTAL-solver-queries"] = interp.S.Queries
+			for k, v := range interp.QProf {
+				fmt.Fprintf(os.Stderr, "QPROF %6d %s\n", v, k)
+			}
+		}()
+	}
 	in := bufio.NewReaderSize(os.Stdin, 1<<20)
 	out := bufio.NewWriter(os.Stdout)
 	fmt.Fprintln(out, `{"ready":true}`)
@@ -429,8 +438,14 @@ func runMain(o *opts, rawArgs []string) int {
 			defer func() {
 				if w != nil {
 					w.in.Close()
-					w.cmd.Process.Kill()
-					w.cmd.Wait()
+					done := make(chan struct{})
+					go func() { w.cmd.Wait(); close(done) }()
+					select {
+					case <-done:
+					case <-time.After(2 * time.Second):
+						w.cmd.Process.Kill()
+						<-done
+					}
 				}
 			}()
 			for {
